@@ -338,3 +338,22 @@ CHECKS["C02"]["rule"] = CHECKS["C02"]["rule"].replace("(1-6 periods of", "(1-6 p
 CHECKS["C02"]["level_note"] = CHECKS["C02"]["level_note"].replace("<=6 periods", "<=14 periods")
 CHECKS["C01"]["rule"] += " One history in four begins with fee allowances granted to the addresses of collectors that do not exist yet (a base account then occupies the address; the payout fails and stays booked)."
 
+# ---------------------------------------------------------------- round 12: scale
+SCALE_DISTR = (" Scale (DESIGN 3a): one configuration in 25 is wide (95-130 more base-account shares: more than 100 states), one in 12 sweeps 8-40 more funded accounts, "
+               "one case in 15 has inflows in 12-40 more denominations, one case in 30-80 runs for 60-160 blocks.")
+for _pid in ("C03", "C04", "C14", "C18", "C01", "C10"):
+    CHECKS[_pid]["rule"] += SCALE_DISTR
+for _pid in ("C05", "C06", "C08", "C18"):
+    CHECKS[_pid]["rule"] += " Scale: one world in twelve gives an owner 35-130 (one time in four 256-300) more pools, most maturing within a minute; a second pool under an existing name of the same owner must be refused."
+CHECKS["C02"]["rule"] += " Scale: first sequence id from {1,2,3,254,255,256,65535}; one case in twenty adds a run of 200-900 blocks at a regular cadence."
+CHECKS["C12"]["rule"] += " Scale: schedules with first sequence ids around 2^8 and 2^16, wide and many-sources distributor configurations."
+CHECKS["C11"]["rule"] += " Scale: one configuration in twelve has a sub-distributor sweeping 8-40 more accounts, funded in the genesis."
+CHECKS["C13"]["rule"] += " Scale: one distributor update in eight lists 64-90 plain sub-distributors in front of the generated (possibly mutated) ones."
+CHECKS["C07"]["rule"] += " Scale: one case in twelve vests 33-48 denominations."
+CHECKS["C09"]["rule"] += " Scale: one case in eight runs on a chain with 140 more accounts."
+CHECKS["C15"]["rule"] += " Scale: action store_again_and_again replaces the record under one key 9-24 times, checking verification after every store."
+CHECKS["C16"]["rule"] += " Scale: one old store in ten holds 101-140 further owner records."
+CHECKS["C17"]["rule"] += " Recorded seed accounts vest, one time in three, also or only denominations that sort before and after the vesting denomination."
+CHECKS["C20"]["rule"] += " Scale: one query state in ten holds 101-260 recorded vesting accounts, pools and payload links."
+CHECKS["C03"]["level_note"] = CHECKS["C03"]["level_note"].replace("<= 5 sub-distributors, <= 8 blocks, 2 denominations", "<= 5 sub-distributors (up to ~135 accounts in wide configurations), <= 160 blocks, up to 43 denominations")
+
